@@ -554,13 +554,19 @@ bool base36_decode(const std::string& in, std::vector<uint8_t>& out) noexcept {
     while (zeros < in.size() && in[zeros] == '0') ++zeros;
 
     std::vector<uint8_t> b256(1, 0);
+    // the value never needs more bytes than it has digits: reserving up front keeps the
+    // partially decoded bytes from being left behind in reallocated blocks
+    b256.reserve(in.size() - zeros + 1);
     for (size_t i = zeros; i < in.size(); ++i) {
         unsigned char c = static_cast<unsigned char>(in[i]);
         int val;
         if (c >= '0' && c <= '9') val = c - '0';
         else if (c >= 'A' && c <= 'Z') val = c - 'A' + 10;
         else if (c >= 'a' && c <= 'z') val = c - 'a' + 10;
-        else return false;
+        else {
+            secure_zero(b256.data(), b256.size());
+            return false;
+        }
 
         int carry = val;
         for (size_t j = b256.size(); j-- > 0;) {
@@ -578,6 +584,7 @@ bool base36_decode(const std::string& in, std::vector<uint8_t>& out) noexcept {
     while (start < b256.size() && b256[start] == 0) ++start;
     out.assign(zeros, 0);
     out.insert(out.end(), b256.begin() + start, b256.end());
+    secure_zero(b256.data(), b256.size());
     return true;
 }
 
